@@ -484,6 +484,12 @@ def write_evidence(mod, tier, seed, out, wall, extra=None):
         "violations": len(out.violations),
     }
     d = os.path.join(VERIF, "evidence")
+    alt = os.environ.get("PGF_REPO")
+    if alt and os.path.realpath(alt) != os.path.realpath("/repo"):
+        # a run against a scratch copy (sensitivity / soundness tools) is not evidence about /repo
+        import tempfile
+
+        d = os.path.join(tempfile.gettempdir(), "pgf-scratch-evidence")
     os.makedirs(d, exist_ok=True)
     with open(os.path.join(d, mod.ID + ".json"), "w") as f:
         f.write(dumps(doc, indent=1))
